@@ -378,6 +378,14 @@ class Interp:
         if isinstance(container, SList):
             j = z3.Int(self.ctx.fresh_name("j"))
             return z3.Exists([j], z3.And(0 <= j, j < container.length, z3.Select(container.arr, j) == to_term(item)))
+        if isinstance(container, Opaque) and container.tag in ("dict_keys",):
+            return self.contains(container.attrs["d"], item, node)
+        if isinstance(container, Opaque) and container.tag == "range":
+            a = container.attrs
+            if kind_of(item) in (INT, BOOL) and isinstance(a["step"], int) and a["step"] > 0:
+                x, lo, hi = ops.as_int_term(item), ops.as_int_term(a["start"]), ops.as_int_term(a["stop"])
+                return ops.b_and(x >= lo, x < hi, (x - lo) % a["step"] == 0) if a["step"] != 1 else ops.b_and(x >= lo, x < hi)
+            return False
         if isinstance(container, str) and isinstance(item, str):
             return item in container
         if kind_of(container) == STR and kind_of(item) == STR:
